@@ -341,6 +341,11 @@ impl World {
         let mut actors: Vec<Addr> = (0..N_ACTORS).map(|i| d.api.addr_make(&format!("actor{i}"))).collect();
         // chain-level (wasm module) admin of the token contract: an ordinary actor, no rights inside the contract
         d.chain_admin = Some(actors[1].clone());
+        // every actor may just as well be a contract (a proxy, a multisig) that answers smart queries obligingly:
+        // whatever it says when asked, nobody but the registered minter mints
+        for a in &actors {
+            d.peers.insert(a.to_string(), vec![(String::new(), br#"{"can_execute":true}"#.to_vec())]);
+        }
         actors.push(d.contract.clone());
         let mut rcpts: Vec<String> = actors.iter().map(|a| a.to_string()).collect();
         rcpts.push("x".to_string());
